@@ -243,6 +243,34 @@ func c18(w *core.World, r *core.Report) {
 	}
 	for _, k := range []struct{ key, want string }{{"datastore/target.ncTarget.setRunning", "running"}, {"datastore/target.ncTarget.setCandidate", "candidate"}} {
 		cs := core.CallsTo(set, k.key)
+		if len(cs) == 0 {
+			// the table form of the switch: a package-level map from the commit-datastore name to the method
+			done := false
+			for _, c := range core.Calls(set) {
+				keyV, table := dispatchTable(w, c)
+				if table == nil {
+					continue
+				}
+				fn := table[k.want]
+				isKey := false
+				for _, o := range append(core.Origins(keyV), keyV) {
+					if core.FieldOf(o) == "config.SBINetconfOptions.CommitDatastore" {
+						isKey = true
+					}
+				}
+				n := 0
+				for _, t := range table {
+					if core.FuncKey(t) == k.key {
+						n++
+					}
+				}
+				r.Check(fn != nil && core.FuncKey(fn) == k.key && n == 1 && isKey, "DISPATCH", core.Site(set, "call %s", k.key), w.InstrPos(c), fmt.Sprintf("selected only when commit-datastore == %q (dispatch table)", k.want))
+				done = true
+			}
+			if done {
+				continue
+			}
+		}
 		if len(cs) != 1 {
 			r.Viol("DISPATCH", core.Site(set, "call %s", k.key), w.Pos(set.Pos()), fmt.Sprintf("expected one call, found %d", len(cs)))
 			continue
